@@ -1,4 +1,5 @@
 //! Call-site and function-header tables (C11).
+use crate::lex::{self, Kind, Tok};
 use crate::project::Node;
 use serde_json::{json, Value};
 
@@ -29,12 +30,62 @@ fn walk(t: &Node, out: &mut Vec<Value>) {
     }
 }
 
+/// Call sites in source order (preorder of the projected tree: prefix before arguments).
 pub fn call_table(t: &Node) -> Value {
     let mut v = Vec::new();
     walk(t, &mut v);
     Value::Array(v)
 }
 
-pub fn header_table(_out: &str) -> Value {
-    json!([])
+/// For every `(` that follows a name: is it a function definition header or a call, and is there
+/// whitespace between the name and the parenthesis?  Rows inside `exempt` spans are flagged.
+pub fn header_table(out: &str, exempt: &[(usize, usize)]) -> Value {
+    let toks: Vec<Tok> = lex::lex(out).into_iter().collect();
+    let code: Vec<usize> = (0..toks.len()).filter(|i| !toks[*i].is_trivia()).collect();
+    let mut rows: Vec<Value> = Vec::new();
+    for (ci, &ti) in code.iter().enumerate() {
+        let t = &toks[ti];
+        if t.kind != Kind::Symbol || t.text(out) != "(" || ci == 0 {
+            continue;
+        }
+        let p = &toks[code[ci - 1]];
+        let kind;
+        if p.kind == Kind::Name {
+            // walk back over a.b.c / a:b
+            let mut k = ci - 1;
+            while k >= 2 {
+                let sep = &toks[code[k - 1]];
+                let before = &toks[code[k - 2]];
+                if sep.kind == Kind::Symbol && matches!(sep.text(out), "." | ":") && before.kind == Kind::Name {
+                    k -= 2;
+                } else {
+                    break;
+                }
+            }
+            let is_def = k >= 1 && toks[code[k - 1]].kind == Kind::Keyword && toks[code[k - 1]].text(out) == "function";
+            kind = if is_def { "def" } else { "call" };
+        } else if p.kind == Kind::Keyword && p.text(out) == "function" {
+            kind = "anon";
+        } else {
+            continue;
+        }
+        let between = &out[p.end..t.start];
+        let ex = exempt.iter().any(|(a, z)| t.start >= *a && t.start < *z);
+        rows.push(json!({"kind": kind, "space": !between.is_empty(), "newline": between.contains('\n'),
+                         "comment": between.contains("--"), "exempt": ex, "at": t.start}));
+    }
+    // aggregate into classes
+    let mut classes: std::collections::BTreeMap<String, (Value, u64)> = std::collections::BTreeMap::new();
+    for mut r in rows {
+        let first = r["at"].clone();
+        r.as_object_mut().unwrap().remove("at");
+        let key = r.to_string();
+        let e = classes.entry(key).or_insert_with(|| {
+            let mut x = r.clone();
+            x["first_at"] = first;
+            (x, 0)
+        });
+        e.1 += 1;
+    }
+    Value::Array(classes.into_values().map(|(mut r, n)| { r["count"] = json!(n); r }).collect())
 }
